@@ -259,7 +259,7 @@ fn case(tier: Tier, rng: &mut Rng, rep: &mut Report) {
 }
 
 pub fn run(tier: Tier, seed: u64) -> MonOut {
-    let n = tier.n(2_500, 100_000);
+    let n = tier.n(25_000, 800_000);
     let mut rep = par_cases(seed, n, |_i, rng, rep| case(tier, rng, rep));
     let mut d = Report::new();
     super::c01::run_directed("C13", &mut d, check_query);
